@@ -48,6 +48,10 @@ func init() { register("C10", runC10) }
 //	Cl:<cred>:<name>  like C, but ANOTHER connection holds the database's write lock (BEGIN IMMEDIATE on a second *sql.DB on
 //	Rl:<cred>:<name>  the same file) until the call has returned: the write cannot be done, the answer must say so
 //	                  (c:fail / r:fail after the service's busy timeout, about 5 s) and nothing may have changed
+//	Cw:<cred>:<name>:<probe>  like C / R, and <probe> is authenticated (GET /api/v1/access + the websocket token check) from
+//	Rw:<cred>:<name>:<probe>  INSIDE the write transaction (SQLite commit hook: statement done, COMMIT pending).  result
+//	                  "<c|r>:..+<role>,<ok|no>" ("+-" when no write transaction was committed or <probe> is the revoked
+//	                  value itself): the answer is the one <probe> gets alone
 //	RACE:<name>       (after a restart, so that nothing about the value is remembered in memory)
 //	                  an authenticate (GET /api/v1/access) of the value is started in a goroutine and held right after
 //	                  the token repository's lookup returned (decorated repository.Tokens); DELETE /api/v1/access/<value>
@@ -76,7 +80,9 @@ type c10State struct {
 	admin string
 	real  bool
 
-	failCommit int32      // != 0: every COMMIT on the hooked connections is refused
+	failCommit int32 // != 0: every COMMIT on the hooked connections is refused
+	hookMu     sync.Mutex
+	inCommit   func()     // when set: run once from inside the next COMMIT (the write transaction is still open)
 	slow       int        // operations / cases that ran into a deadline so far in this run
 	pause      *tokPauser // scheduling point in the decorated token repository (c10_engine.go)
 	adminCfg   string     // configured admin token of this case ("" = the default of the configuration)
@@ -212,7 +218,16 @@ func (st *c10State) open(dir string) error {
 	// scheduling point in the token repository; the token service (and below, the engine and the websocket
 	// server that hold it) is rebuilt around the decorated repository exactly as service.NewServices builds it
 	st.pause.install(s)
-	if err := s.HookCommits(2, func() int { return int(atomic.LoadInt32(&st.failCommit)) }); err != nil {
+	if err := s.HookCommits(2, func() int {
+		st.hookMu.Lock()
+		f := st.inCommit
+		st.inCommit = nil
+		st.hookMu.Unlock()
+		if f != nil {
+			f()
+		}
+		return int(atomic.LoadInt32(&st.failCommit))
+	}); err != nil {
 		s.Close()
 		return err
 	}
@@ -232,6 +247,43 @@ func (st *c10State) open(dir string) error {
 func (st *c10State) op(o string, dir string) string {
 	p := strings.Split(o, ":")
 	switch {
+	case (p[0] == "Cw" || p[0] == "Rw") && len(p) == 4:
+		// authenticate <probe> from INSIDE the write transaction of the create / revoke (SQLite commit hook: the INSERT /
+		// DELETE is done, the COMMIT not yet): a write in progress must not change what another token gets
+		probe := st.resolve(p[3])
+		done := make(chan string, 1)
+		started := false
+		if !(p[0] == "Rw" && probe == st.resolve(p[2])) { // the revoked token itself may be answered either way
+			st.hookMu.Lock()
+			st.inCommit = func() {
+				started = true
+				go func() {
+					r := st.role(probe)
+					w := "ok"
+					if _, err := st.fs.Services.Tokens.GetToken(c10WsToken(probe)); err != nil {
+						w = "no"
+					}
+					done <- r + "," + w
+				}()
+				// the write transaction stays open while the probe's lookup arrives (a reader that has to wait for
+				// the writer waits - busy handler - and is answered once the COMMIT is through)
+				time.Sleep(30 * time.Millisecond)
+			}
+			st.hookMu.Unlock()
+		}
+		r := st.op(string(p[0][0])+":"+p[1]+":"+p[2], dir)
+		st.hookMu.Lock()
+		st.inCommit = nil
+		st.hookMu.Unlock()
+		inner := "-"
+		if started {
+			select {
+			case inner = <-done:
+			case <-time.After(2 * waitDeadline):
+				inner = "TIMEOUT"
+			}
+		}
+		return r + "+" + inner
 	case (p[0] == "C" || p[0] == "Cf" || p[0] == "Cl") && len(p) == 3:
 		if p[0] == "Cf" {
 			atomic.StoreInt32(&st.failCommit, 1)
@@ -677,6 +729,12 @@ func c10Gen(c *Ctx, maxLen int) string {
 			if cr == "adm" {
 				unbound = append(unbound[:k], unbound[k+1:]...)
 				created = append(created, nm)
+			}
+		case r < 22 && c.Rng.Intn(4) == 0 && len(created) > 0:
+			if c.Rng.Intn(2) == 0 {
+				ops = append(ops, "Rw:adm:"+target()+":"+anyName())
+			} else {
+				ops = append(ops, "Cw:adm:g:"+anyName())
 			}
 		case r < 22 && c.Rng.Intn(2) == 0:
 			ops = append(ops, pick([]string{"OVL:", "SLW:", "SLW:"})+anyName()+":"+anyName())
